@@ -611,6 +611,136 @@ func runC09(c *mon.Ctx) {
 		}
 	}
 
+	// ---- (b2) valid but sparse messages against providers with every option set ----
+	// Every element and attribute the schema makes optional is left out (or given in its other permitted form) at
+	// random in an otherwise genuine, correctly signed Response; the provider has every configuration field set that
+	// the inbound path could look at (requested authentication contexts, NameID format, passive / forced
+	// authentication, request signing, certificate validation). Accepting or refusing is other monitors' business.
+	ns := c.N(400, 12000) / div
+	for k := 0; k < ns; k++ {
+		cs := c.Begin("sparse-valid", k)
+		if cs == nil {
+			continue
+		}
+		r := cs.Rand()
+		rec := sim.GenuineResponse(w.Env, 1+r.IntN(2))
+		drop := func() bool { return r.IntN(3) == 0 }
+		var dropped []string
+		note := func(s string) { dropped = append(dropped, s) }
+		if drop() {
+			rec.InResponseTo = nil
+			note("InResponseTo")
+		}
+		if drop() {
+			rec.Destination = nil
+			note("Destination")
+		}
+		if r.IntN(8) == 0 {
+			rec.Issuer = nil
+			note("Issuer")
+		}
+		for i, a := range rec.Assertions {
+			a.ID = sim.S(fmt.Sprintf("_s%d-%08x", i, r.Uint32()))
+			if a.Authn != nil {
+				switch r.IntN(8) {
+				case 0:
+					a.Authn = nil
+					note("AuthnStatement")
+				case 1:
+					a.Authn.ClassRef, a.Authn.DeclRef = nil, sim.S("https://idp.example.test/authn/decl/otp.xml")
+					note("ClassRef->DeclRef")
+				case 2:
+					a.Authn.DeclRef = sim.S("urn:example:decl")
+					note("+DeclRef")
+				case 3:
+					a.Authn.ClassRef, a.Authn.EmptyContext = nil, true
+					note("empty AuthnContext")
+				case 4:
+					a.Authn.ClassRef = nil
+					note("AuthnContext")
+				case 5:
+					a.Authn.ClassRef = sim.S("")
+					note("empty ClassRef")
+				}
+			}
+			if a.Authn != nil && drop() {
+				a.Authn.SessionIndex = nil
+				note("SessionIndex")
+			}
+			if a.Authn != nil && r.IntN(6) == 0 {
+				a.Authn.AuthnInstant = nil
+				note("AuthnInstant")
+			}
+			if drop() {
+				a.HasAttrStmt = false
+				note("AttributeStatement")
+			} else if drop() {
+				a.Attrs = nil
+				note("Attributes")
+			}
+			if r.IntN(6) == 0 {
+				a.NameID = nil
+				note("NameID")
+			}
+			if r.IntN(6) == 0 {
+				a.NameIDFormat = nil
+				note("NameID@Format")
+			}
+			if r.IntN(8) == 0 {
+				a.HasSubject = false
+				note("Subject")
+			}
+			if r.IntN(8) == 0 {
+				a.Cond = nil
+				note("Conditions")
+			} else if a.Cond != nil && drop() {
+				a.Cond.Restrictions = nil
+				note("AudienceRestriction")
+			}
+			if r.IntN(8) == 0 {
+				a.Confs = nil
+				note("SubjectConfirmation")
+			}
+			if r.IntN(10) == 0 {
+				a.Issuer = nil
+				note("Assertion/Issuer")
+			}
+		}
+		signer := w.IdP[0]
+		if r.IntN(2) == 0 {
+			rec.Sig = sim.DefaultSig(signer.Key, signer)
+		} else {
+			for _, a := range rec.Assertions {
+				a.Sig = sim.DefaultSig(signer.Key, signer)
+			}
+		}
+		if r.IntN(4) == 0 && len(rec.Assertions) > 0 {
+			rec.Assertions[0].Enc = &sim.EncSpec{DataAlg: pick(r, sim.DataAlgs), KeyAlg: sim.RSAOAEP, To: w.SPEnc}
+			if rec.Sig != nil {
+				rec.Sig, rec.Assertions[0].Sig = nil, sim.DefaultSig(signer.Key, signer)
+			}
+		}
+		doc, err := sim.BuildResponse(rec, sim.PlainStyle())
+		if err != nil {
+			cs.Inconclusive("simulator-error")
+			continue
+		}
+		sp, _, _ := NewSP(w.Now, signer)
+		sp.SPKeyStore = &RSAKeyStore{C: w.SPEnc}
+		sp.SPSigningKeyStore = &RSAKeyStore{C: sim.Wide(sim.K("spsign"), w.Now)}
+		sp.SignAuthnRequests, sp.ForceAuthn, sp.IsPassive, sp.ValidateEncryptionCert = true, r.IntN(2) == 0, r.IntN(2) == 0, r.IntN(2) == 0
+		sp.AllowMissingAttributes = r.IntN(2) == 0
+		sp.SkipSignatureValidation = r.IntN(4) == 0
+		sp.NameIdFormat = pick(r, []string{saml2.NameIdFormatPersistent, saml2.NameIdFormatTransient, "", "urn:x"})
+		sp.RequestedAuthnContext = &saml2.RequestedAuthnContext{Comparison: pick(r, []string{saml2.AuthnPolicyMatchExact, saml2.AuthnPolicyMatchMinimum, "", "better"}),
+			Contexts: [][]string{{saml2.AuthnContextPasswordProtectedTransport}, {"urn:oasis:names:tc:SAML:2.0:ac:classes:Password", "urn:oasis:names:tc:SAML:2.0:ac:classes:X509"}, {}, nil, {""}}[r.IntN(5)]}
+		sp.SignAuthnRequestsAlgorithm = pick(r, []string{"", dsig.RSASHA256SignatureMethod, dsig.RSASHA512SignatureMethod})
+		cs.Desc("left out: %v; skip=%v allowMissing=%v ctx=%+v", dropped, sp.SkipSignatureValidation, sp.AllowMissingAttributes, *sp.RequestedAuthnContext)
+		cs.Input([]byte(doc))
+		cs.Nontrivial(cs.Description())
+		c09Call(cs, sp, "all-options", b64([]byte(doc)))
+	}
+
 	// ---- (c) hostile shapes ----
 	shapes := c09Shapes(w, c.Thorough(), c.Race)
 	for k, sh := range shapes {
